@@ -562,17 +562,16 @@ func (fm *FontMap) ResolveFace(r rune) (face *font.Face) {
 	}
 
 	fm.logger.Printf("No font matched for script %s and rune %U (%c) -> returning arbitrary face", fm.script, r, r)
-	// return an arbitrary face
-	if fm.firstFace == nil && len(fm.database) > 0 {
-		for _, fp := range fm.database {
-			face, err := fm.loadFont(fp)
-			if err != nil {
-				// very unlikely; warn and keep going
-				fm.logger.Printf("failed loading face: %v", err)
-				continue
-			}
-			return face
+	// return an arbitrary face, which must not depend on the previous lookups:
+	// the first face of the database that can be loaded
+	for _, fp := range fm.database {
+		face, err := fm.loadFont(fp)
+		if err != nil {
+			// very unlikely; warn and keep going
+			fm.logger.Printf("failed loading face: %v", err)
+			continue
 		}
+		return face
 	}
 
 	return fm.firstFace
